@@ -50,6 +50,7 @@ def main():
             tot += len(rows)
             tc += len(caught)
             out.append("| %s | %d | %d | %d | %s |" % (p, len(rows), len(caught), len(green), "; ".join(missed) or "-"))
+        tot, tc = len(R), len([1 for r in R.values() if r["caught"]])       # (a mutant tried against two properties has two rows)
         out.append("\n%d of %d mutants are caught. `suite still green` counts the mutants the repository's own 405 tests do not notice.\n" % (tc, tot))
     path = os.path.join(VERIF, "DESIGN.md")
     s = open(path).read()
